@@ -49,6 +49,11 @@ def run(ctx):
         header_rule(ctx, fb, fm)
         row_agreement(ctx, fb, fm)
     selection_rule(ctx, fm)
+    # container independence reduces to the reader: decoder choice and suffix table
+    from . import c06
+    c06.decoder_rule(dep(ctx, "C05", "C06"))
+    c06.suffix_rule(dep(ctx, "C05", "C06"))
+    c06.accessor_rule(dep(ctx, "C05", "C06"))
 
 
 def reader_ownership(ctx, rule):
